@@ -134,6 +134,14 @@ type Peer struct {
 	hmu  sync.Mutex
 	Held [][]byte
 
+	// SECS-I fault behaviours: Dup = how many times each acknowledged block is transmitted again (a
+	// sender that lost the ACK); NakFirst = 1 NAK / 2 stay silent on the first transmission of every
+	// block the connection under test sends (it then retransmits). DupSent counts the duplicates.
+	Dup      atomic.Int32
+	NakFirst atomic.Int32
+	DupSent  atomic.Int64
+	s1nak    string
+
 	// SECS-I line state (nil channels for HSMS-SS)
 	s1     bool
 	s1in   chan byte
@@ -597,6 +605,19 @@ func (p *Peer) Primary(n uint32) error {
 	var sys [4]byte
 	binary.BigEndian.PutUint32(sys[:], 0x80000000|n)
 	return p.SendData(frame(p.env.SessionID, 1, 13, 0, 0, sys, body(n, uint32(p.Gen)).ToBytes()))
+}
+
+// PrimaryBig sends an unsolicited primary whose body (a binary item of size bytes) spans several
+// SECS-I blocks when size > 244.
+func (p *Peer) PrimaryBig(n uint32, size int) error {
+	var sys [4]byte
+	binary.BigEndian.PutUint32(sys[:], 0x80000000|n)
+	b := make([]byte, 3+size)
+	b[0], b[1], b[2] = 0x22, byte(size>>8), byte(size)
+	for i := 3; i < len(b); i++ {
+		b[i] = byte(i * 7)
+	}
+	return p.SendData(frame(p.env.SessionID, 1, 13, 0, 0, sys, b))
 }
 
 // PrimaryUncounted writes an unsolicited primary that the connection under test must NOT count as
